@@ -20,7 +20,9 @@ theorem buildTree_id (keys : Nat → Bytes × Bytes) (t0 : Bytes) :
        { t := (buildLevels (m := Id) h sid keys levels [(keys 0).1, (keys 0).2]).2
          sTilda := Hh h sid ((buildLevels (m := Id) h sid keys levels [(keys 0).1, (keys 0).2]).1.map (P h sid))
          tTilda := ((buildLevels (m := Id) h sid keys levels [(keys 0).1, (keys 0).2]).1.map (P h sid)).foldl xorBytes t0 }) := by
-  simp only [buildTree, proveLeaves_id]
+  unfold buildTree
+  generalize levels = lv
+  simp only [proveLeaves_id]
   rfl
 
 /-- the vector the receiver hashes -/
@@ -39,7 +41,9 @@ theorem evalTree_id (bit : Nat → Nat) (dk : Nat → Bytes) (msg : TreeMsg) :
             (evalLevels (m := Id) h sid bit dk levels msg.t (evalInit (bit 0) (dk 0)).1 (evalInit (bit 0) (dk 0)).2).2 msg.tTilda)
           ≠ msg.sTilda then none
       else some (evalLevels (m := Id) h sid bit dk levels msg.t (evalInit (bit 0) (dk 0)).1 (evalInit (bit 0) (dk 0)).2) := by
-  simp only [evalTree, verifyVector_id]
+  unfold evalTree
+  generalize levels = lv
+  simp only [verifyVector_id]
   rfl
 
 /-- the receiver re-computes the sender's proof vector exactly -/
@@ -85,13 +89,13 @@ theorem evalInit_inv (bit0 : Nat) (hb : bit0 ≤ 1) (F : Bytes × Bytes) :
     Inv [F.1, F.2] (evalInit bit0 (sel bit0 F)).2 (evalInit bit0 (sel bit0 F)).1 := by
   have hc' : bit0 = 0 ∨ bit0 = 1 := by omega
   rcases hc' with rfl | rfl
-  · refine ⟨rfl, by decide, ?_, rfl⟩
+  · refine ⟨rfl, by show 1 < 2; omega, ?_, rfl⟩
     intro y hy
     match y with
     | 0 => rfl
     | 1 => exact absurd rfl hy
     | y+2 => rfl
-  · refine ⟨rfl, by decide, ?_, rfl⟩
+  · refine ⟨rfl, by show 0 < 2; omega, ?_, rfl⟩
     intro y hy
     match y with
     | 0 => exact absurd rfl hy
@@ -124,14 +128,17 @@ theorem tree_correct (keys : Nat → Bytes × Bytes) (bit : Nat → Nat) (dk : N
   have hinit := evalInit_inv (bit 0) hb0 (keys 0)
   rw [← hd0] at hinit
   obtain ⟨hinv, hy⟩ := levels_inv h sid keys bit dk levels _ _ _ hinit hyp
+  have hy' : _ = ystarOf bit := hy.trans (ystarOf_eq bit).symm
   rw [evalTree_id, buildTree_id]
   simp only
-  rw [← ystarOf_eq] at hy
-  refine ⟨_, ?_, ?_, ?_⟩
-  rotate_left
-  · rw [← hy]; exact hinv
-  · rw [buildLevels_length, levels_eq]; rfl
+  generalize evalLevels (m := Id) h sid bit dk levels (buildLevels (m := Id) h sid keys levels [(keys 0).1, (keys 0).2]).2
+    (evalInit (bit 0) (dk 0)).1 (evalInit (bit 0) (dk 0)).2 = r at hinv hy' ⊢
+  refine ⟨r.2, ?_, ?_, ?_⟩
   · rw [vecR_eq h sid _ _ _ hinv]
-    simp [← hy]
+    simp only [ne_eq, not_true_eq_false, if_false]
+    rw [← hy']
+    rfl
+  · rw [← hy']; exact hinv
+  · rw [buildLevels_length, levels_eq]; rfl
 
 end SlVerif.Pprf
